@@ -317,6 +317,8 @@ def resolveImports(sheet, target=None):
         target = css.CSSStyleSheet(href=sheet.href,
                                    media=sheet.media,
                                    title=sheet.title)
+        # kept @import rules are re-resolved by add(): use the sheet's fetcher
+        target._setFetcher(sheet._fetcher)
 
     def getReplacer(targetbase):
         "Return a replacer which uses base to return adjusted URLs"
